@@ -9,6 +9,7 @@ import (
 	"encoding/binary"
 	"errors"
 	"fmt"
+	"io"
 	"strings"
 	"sync"
 	"time"
@@ -218,9 +219,39 @@ type c02Hist struct {
 	recs       []*c02Rec // index id-1: every tx ever observed committed (or acked)
 	roots      refRoots
 	truncBelow uint64 // values of txs with id < truncBelow may be gone
+	// every TruncateUptoTx the history issued: cut point and committed frontier when it was called
+	truncs []c02TruncRec
 	reads      int    // whole-history re-reads
 	txReads    int
 }
+
+type c02TruncRec struct{ cut, frontier uint64 }
+
+// noteTrunc is called right BEFORE TruncateUptoTx(cut). valid: 1 <= cut <= committed frontier (any other cut
+// must delete nothing, so it does not widen what may be gone).
+func (h *c02Hist) noteTrunc(cut, frontier uint64, valid bool) {
+	h.mu.Lock()
+	defer h.mu.Unlock()
+	h.truncs = append(h.truncs, c02TruncRec{cut, frontier})
+	if valid && cut > h.truncBelow {
+		h.truncBelow = cut
+	}
+}
+
+// inflightAt: some truncation was called when tx id was not committed yet. Its values may have been in a value
+// log already (they are appended before the id is assigned), invisible to TruncateUptoTx, which only looks at
+// committed txs: the known weakness C14 K6 (C14:TruncateUptoTx:inflight-writer-values-deleted).
+func (h *c02Hist) inflightAt(id uint64) bool {
+	for _, t := range h.truncs {
+		if t.frontier < id {
+			return true
+		}
+	}
+	return false
+}
+
+// exportForm classifies the trailing "truncated" flag of an exported tx (1 = values replaced by nothing, digests only).
+func exportTruncated(b []byte) bool { return len(b) >= 3 && b[len(b)-3] == 0 && b[len(b)-2] == 1 && b[len(b)-1] == 1 }
 
 var errHang = errors.New("hang")
 
@@ -296,16 +327,33 @@ func (h *c02Hist) verify(r *hx.Result, st *store.ImmuStore, cfg *c02Cfg, replay 
 		}
 		es := make([]refEntry, 0, len(tx.Entries()))
 		vals := make([][]byte, 0, len(tx.Entries()))
-		valErr := false
+		valErr, belowGone := false, false
 		for _, e := range tx.Entries() {
 			es = append(es, entryOf(e))
 			v, verr := st.ReadValue(e)
 			if verr != nil {
 				if id < h.truncBelow {
+					// below the largest cut the value may be gone, in the documented form only: io.EOF
+					if !errors.Is(verr, io.EOF) {
+						fail("C02:history:truncated-value-wrong-error", fmt.Sprintf("tx %d (below the cut %d) key %x: ReadValue: %v", id, h.truncBelow, e.Key(), verr))
+					}
 					vals = append(vals, nil)
+					belowGone = true
 					continue
 				}
-				fail("C02:history:value-unreadable", fmt.Sprintf("tx %d key %x: %v", id, e.Key(), verr))
+				// at or after every cut. Never readable since it was first seen committed AND a truncation was called
+				// while it was still in flight: C14's known K6; anything else: a committed value was lost
+				var rc0 *c02Rec
+				if int(id) <= len(h.recs) {
+					rc0 = h.recs[id-1]
+				}
+				ei := len(vals)
+				neverReadable := rc0 == nil || (ei < len(rc0.values) && rc0.values[ei] == nil)
+				if neverReadable && h.inflightAt(id) && errors.Is(verr, io.EOF) {
+					fail(c02SigInflight, fmt.Sprintf("tx %d key %x: %v (its values were in a value log, its id not yet committed, when TruncateUptoTx ran; cuts so far %v)", id, e.Key(), verr, h.truncs))
+				} else {
+					fail("C02:history:value-unreadable", fmt.Sprintf("tx %d key %x (largest cut so far %d, value-log location %d): %v", id, e.Key(), h.truncBelow, e.VOff(), verr))
+				}
 				vals = append(vals, nil)
 				valErr = true
 				continue
@@ -345,9 +393,12 @@ func (h *c02Hist) verify(r *hx.Result, st *store.ImmuStore, cfg *c02Cfg, replay 
 		} else if b2, _ := h2.Bytes(); !bytes.Equal(b2, hb) {
 			fail("C02:history:readers-disagree", fmt.Sprintf("ReadTxHeader(%d) differs from ReadTx", id))
 		}
-		// third reader: ExportTx (skipped for txs whose values may have been truncated: DESIGN F4 mutex leak)
+		// third reader: ExportTx. At or after every cut: all values. Below the largest cut the values may be gone, but then
+		// in one of the documented forms only: every value replaced by its digest + the "truncated" flag, or the
+		// refusal "partially truncated transaction" — never other bytes, never a block.
 		var exp []byte
-		if id >= h.truncBelow && !valErr {
+		if !valErr {
+			below := id < h.truncBelow
 			etx := store.NewTx(cfg.maxTxEntries+1, cfg.maxKeyLen)
 			eerr := withTimeout(20*time.Second, func() error {
 				var e error
@@ -355,22 +406,43 @@ func (h *c02Hist) verify(r *hx.Result, st *store.ImmuStore, cfg *c02Cfg, replay 
 				return e
 			})
 			if eerr != nil {
-				fail("C02:history:export-failed", fmt.Sprintf("ExportTx(%d): %v", id, eerr))
 				exp = nil
+				if below && eerr != errHang && errors.Is(eerr, store.ErrCorruptedData) && strings.Contains(eerr.Error(), "partially truncated") {
+					r.Count("export.below-cut.partially-truncated")
+				} else {
+					fail("C02:history:export-failed", fmt.Sprintf("ExportTx(%d) (largest cut %d): %v", id, h.truncBelow, eerr))
+				}
 			} else if eh, ees, evals, perr := parseExport(exp); perr != nil {
 				fail("C02:history:export-unparsable", fmt.Sprintf("ExportTx(%d): %v", id, perr))
 			} else {
 				if !bytes.Equal(eh, hb) {
 					fail("C02:history:readers-disagree", fmt.Sprintf("ExportTx(%d) header differs from ReadTx", id))
 				}
+				digests := exportTruncated(exp)
+				if digests && !below {
+					fail("C02:history:export-without-values", fmt.Sprintf("ExportTx(%d) (largest cut %d) ships digests instead of values", id, h.truncBelow))
+				}
 				ok := len(ees) == len(es)
 				for i := 0; ok && i < len(es); i++ {
-					if !bytes.Equal(ees[i].key, es[i].key) || !bytes.Equal(ees[i].md, es[i].md) || !bytes.Equal(evals[i], vals[i]) {
+					if !bytes.Equal(ees[i].key, es[i].key) || !bytes.Equal(ees[i].md, es[i].md) {
 						ok = false
+					} else if digests {
+						ok = bytes.Equal(evals[i], es[i].hval[:])
+					} else if vals[i] != nil {
+						ok = bytes.Equal(evals[i], vals[i])
+					} else {
+						// ReadValue said "gone" (below the cut) and ExportTx still ships a value: it must be THE value
+						ok = belowGone && sha256.Sum256(evals[i]) == es[i].hval && len(evals[i]) == es[i].vlen
 					}
 				}
 				if !ok {
-					fail("C02:history:readers-disagree", fmt.Sprintf("ExportTx(%d) entries differ from ReadTx", id))
+					fail("C02:history:readers-disagree", fmt.Sprintf("ExportTx(%d) entries differ from ReadTx (digest form=%v)", id, digests))
+				}
+				if digests {
+					r.Count("export.below-cut.digests")
+					exp = nil // not THE export of the tx: nothing to record or to compare with the first export
+				} else if below {
+					r.Count("export.below-cut.values")
 				}
 			}
 		}
